@@ -23,7 +23,7 @@ COMPONENTS_STUB = ["UDP socket (SimSocket) incl. error queue", "scripted peers (
 ASSUMPTIONS = ["message IDs are assigned at submission, which gives an independent handle on submission order",
                "an exchange ends when an ACK/RST with its MID from its remote is delivered, when its retransmissions are "
                "exhausted, or when a transport error for the remote is delivered"]
-EXPECTED_PROBES = ["server_originated_con", "backlog_depth_1", "backlog_depth_3", "release_after_ack", "release_after_rst", "flush_by_giveup",
+EXPECTED_PROBES = ["request_submitted_from_inside_an_errback", "server_originated_con", "backlog_depth_1", "backlog_depth_3", "release_after_ack", "release_after_rst", "flush_by_giveup",
                    "flush_by_icmp", "non_while_blocked", "other_remote_while_blocked", "unsendable_message", "response_before_exchange_end", "request_cancelled_by_application", "garbage_collected_mid_run", "application_callback_raised"]
 
 REACTIONS = ["ack", "ack_sep", "piggy", "rst", "silent"]
